@@ -11,7 +11,8 @@ Inductive cmd :=
 | CRun (ixs : list nat) | CRunAll | CSteal (ixs : list nat) | CShutdown | CEnd.
 
 (* worker -> controller events *)
-Inductive outcome := Passed | Failed | Skipped.
+(* Garbled: a report the controller cannot rebuild (deserialisation raises in the receiver thread) *)
+Inductive outcome := Passed | Failed | Skipped | Garbled.
 Inductive wevent :=
 | EReady
 | ECollStart
@@ -237,8 +238,8 @@ Definition wop_of_sx (s : sx) : option wop :=
   | _ => None
   end%string.
 
-Definition z_of_outcome (oc : outcome) : Z := match oc with Passed => 0 | Failed => 1 | Skipped => 2 end%Z.
-Definition outcome_of_z (z : Z) : outcome := match z with 1 => Failed | 2 => Skipped | _ => Passed end%Z.
+Definition z_of_outcome (oc : outcome) : Z := match oc with Passed => 0 | Failed => 1 | Skipped => 2 | Garbled => 3 end%Z.
+Definition outcome_of_z (z : Z) : outcome := match z with 1 => Failed | 2 => Skipped | 3 => Garbled | _ => Passed end%Z.
 
 Definition sx_of_wevent (e : wevent) : sx :=
   match e with
